@@ -40,8 +40,8 @@ Lemma link_sk_lim_TryBorrow : C18_Gen.sk_lim_TryBorrow =
 Proof. reflexivity. Qed. (* LIM.sstep code 1: select send/default *)
 
 Lemma link_sk_lim_Return : C18_Gen.sk_lim_Return =
-  ["select"; "case:"; "recv:l.pool"; "return"; "default:"; "return"].
-Proof. reflexivity. Qed. (* LIM.sstep code 2: select receive/default *)
+  ["cap"; "return"; "select"; "case:"; "recv:l.pool"; "return"; "default:"; "return"].
+Proof. reflexivity. Qed. (* LIM.sstep code 2: capacity-0 test (always ErrLimitReturn), then select receive/default *)
 
 Lemma link_sk_tl_Borrow : C18_Gen.sk_tl_Borrow =
   ["l.TryBorrow"; "return"; "l.cond.WaitWithTimeout"; "l.TryBorrow"; "return"; "return"].
